@@ -75,6 +75,19 @@ fn ireg_code(r: InternalRegister) -> u8 {
     match r { InternalRegister::PC => 0, InternalRegister::PSR => 1, InternalRegister::MCR => 2, InternalRegister::SavedSP => 3 }
 }
 
+thread_local! {
+    /// how `Machine::step` holds a "locked" buffer: 0 = exclusive (write) guard, 1 = shared (read) guard.
+    /// For the implementation both make `try_write` fail with `WouldBlock`, so the model's lock flag is the same.
+    pub static LOCK_KIND: std::cell::Cell<u8> = std::cell::Cell::new(0);
+    /// machines built while this is set get poisoned keyboard / display buffer locks (another thread
+    /// panicked while holding the write guard); the devices recover the guard, so nothing else changes
+    pub static POISON: std::cell::Cell<bool> = std::cell::Cell::new(false);
+}
+/// poison an `RwLock` without invoking the panic hook
+pub fn poison<T: Send + Sync + 'static>(b: &Arc<RwLock<T>>) {
+    let c = b.clone();
+    let _ = std::thread::spawn(move || { let _g = c.write().unwrap_or_else(|e| e.into_inner()); std::panic::resume_unwind(Box::new(())); }).join();
+}
 pub fn build(st: &Setup) -> Machine {
     let mut sim = Simulator::new(st.flags());
     for (a, w) in &st.overrides { sim.mem[*a] = word(*w); }
@@ -134,6 +147,10 @@ pub fn build(st: &Setup) -> Machine {
     }
     let initial_mem: Vec<Word> = (0..=u16::MAX).map(|a| sim.mem[a]).collect();
     let alloca0 = sim.verif_alloca();
+    if POISON.with(|c| c.get()) {
+        if let Some(b) = &kb { poison(b); }
+        if let Some(b) = &ds { poison(b); }
+    }
     Machine { sim, kb, ds, extras, initial_mem, alloca0 }
 }
 
@@ -165,14 +182,14 @@ impl Machine {
         let mut v = vec![L(vec![i(0)])];
         match &self.kb {
             Some(b) => {
-                let q: Vec<u8> = b.read().unwrap().iter().copied().collect();
+                let q: Vec<u8> = b.read().unwrap_or_else(|e| e.into_inner()).iter().copied().collect();
                 let ie = self.sim.device_handler.io_read(0xFE00, false).map(|x| x & (1 << 14) != 0).unwrap_or(false);
                 v.push(L(vec![i(1), bytes(&q), b_(ie)]));
             }
             None => v.push(L(vec![i(0)])),
         }
         match &self.ds {
-            Some(b) => v.push(L(vec![i(2), bytes(&b.read().unwrap())])),
+            Some(b) => v.push(L(vec![i(2), bytes(&b.read().unwrap_or_else(|e| e.into_inner()))])),
             None => v.push(L(vec![i(0)])),
         }
         for x in &self.extras {
@@ -193,8 +210,11 @@ impl Machine {
         let kbh = self.kb.clone();
         let dsh = self.ds.clone();
         let r = {
-            let _g1 = if kb_locked { kbh.as_ref().map(|b| b.write().unwrap()) } else { None };
-            let _g2 = if ds_locked { dsh.as_ref().map(|b| b.write().unwrap()) } else { None };
+            let shared = LOCK_KIND.with(|c| c.get()) == 1;
+            let _g1 = if kb_locked && !shared { kbh.as_ref().map(|b| b.write().unwrap_or_else(|e| e.into_inner())) } else { None };
+            let _g2 = if ds_locked && !shared { dsh.as_ref().map(|b| b.write().unwrap_or_else(|e| e.into_inner())) } else { None };
+            let _g3 = if kb_locked && shared { kbh.as_ref().map(|b| b.read().unwrap_or_else(|e| e.into_inner())) } else { None };
+            let _g4 = if ds_locked && shared { dsh.as_ref().map(|b| b.read().unwrap_or_else(|e| e.into_inner())) } else { None };
             let sim = &mut self.sim;
             catch(|| sim.step_in())
         };
